@@ -296,6 +296,12 @@ def impl_finish(skip, items, vols, u0, u1):
                               always_inline_filled=False,
                               always_inline_filling=True,
                               max_inline_score=3.5)
+    # the two constructors are reached through module-level names of
+    # WriteT4Geometry; if a rewrite reaches them differently the stubs do not
+    # take effect: fall back to the public functions the tail calls
+    if not (hasattr(W, 'construct_surface_t4')
+            and hasattr(W, 'construct_volume_t4')):
+        return impl_finish_public(skip, surfs, dic, u0, u1), 'skipped'
     old = W.construct_surface_t4, W.construct_volume_t4
     W.construct_surface_t4, W.construct_volume_t4 = fake_surf, fake_vol
     try:
@@ -309,15 +315,55 @@ def impl_finish(skip, items, vols, u0, u1):
                 buf = io.StringIO()
                 W.writeT4Geometry(s4, vol, skipped, buf)
             except KeyError:
+                if 'args' not in seen:
+                    raise
                 return ('err', 'EKey'), seen.get('args')
             except ValueError:
+                if 'args' not in seen:
+                    raise
                 return ('err', 'EValue'), seen.get('args')
+    except Exception:      # pylint: disable=broad-except
+        if 'args' in seen:
+            raise
+        # the stub was never reached: the rewrite bypasses the patched names
+        W.construct_surface_t4, W.construct_volume_t4 = old
+        surfs = {k: to_surface(d, origin=[k]) for k, d in items}
+        return impl_finish_public(skip, surfs, to_volume_dict(vols), u0, u1), \
+            'skipped'
     finally:
         W.construct_surface_t4, W.construct_volume_t4 = old
     written = [int(line.split()[1]) for line in buf.getvalue().splitlines()
                if line.startswith('SURF ')]
     return ('ok', list(s4.keys()), from_volume_dict(vol), written), \
         seen.get('args')
+
+
+def impl_finish_public(skip, surfs, dic, u0, u1):
+    '''The same tail through the public functions it calls, in the order of
+    convertMCNPGeometry (used only when the constructors cannot be stubbed).'''
+    from t4_geom_convert.Kernel.Surface.Duplicates import (
+        remove_duplicate_surfaces, renumber_surfaces)
+    from t4_geom_convert.Kernel.Volume.ConstructVolumeT4 import (
+        remove_empty_volumes, remove_unused_volumes, extract_used_surfaces)
+    from t4_geom_convert.Kernel.FileHandlers.Writer import WriteT4Geometry as W
+    union_ids = (u0, u1)
+    try:
+        with quiet():
+            if not skip:
+                surfs, ren = remove_duplicate_surfaces(surfs)
+                dic = renumber_surfaces(dic, ren)
+                union_ids = tuple(ren[u] for u in union_ids)
+            remove_empty_volumes(dic, union_ids)
+            remove_unused_volumes(dic)
+            buf = io.StringIO()
+            W.writeT4Geometry(surfs, dic, [], buf)
+    except KeyError:
+        return ('err', 'EKey')
+    except ValueError:
+        return ('err', 'EValue')
+    written = [int(line.split()[1]) for line in buf.getvalue().splitlines()
+               if line.startswith('SURF ')]
+    return ('ok', list(surfs.keys()), from_volume_dict(dic), written)
 
 
 def coq_res(out, render):
@@ -466,7 +512,9 @@ def impl_inline(cells, score, rng):
     from t4_geom_convert.Kernel.Volume import CellInlining as CI
     dic = to_cell_dict(cells, rng)
     captured = []
-    real = CI.inline_cells_worker
+    real = getattr(CI, 'inline_cells_worker', None)
+    if real is None:
+        return None, ('skip', 'inline_cells_worker not present')
 
     def spy(geometry, dic_, to_inline):
         if not captured:
@@ -598,6 +646,9 @@ def impl_fill_tr(deck_text, args):
     from t4_geom_convert.Kernel.Volume import ConstructVolumeT4 as CV
     import impl
     cap, mats = {}, {}
+    if not all(hasattr(CV, n) for n in ('by_universe', 'inline_cells',
+                                        'CellConversion')):
+        return 'hooks-missing'
     real_by, real_inl, real_cls = CV.by_universe, CV.inline_cells, \
         CV.CellConversion
 
